@@ -10,6 +10,7 @@ mod conn;
 mod control;
 mod disthdr;
 mod edges;
+mod elixir;
 mod etf;
 mod frag;
 mod handshake;
@@ -57,6 +58,7 @@ fn main() {
         "conn-conc" => conn::run_conc(rest),
         "conn-recv" => conn::run_recv(rest),
         "serde-rt" => serde_rt::run(rest),
+        "elixir-run" => elixir::run(rest),
         other => {
             eprintln!("unknown subcommand {other}");
             2
